@@ -121,8 +121,69 @@ class SphinxBuild:
         self.warnings = ""
         self.status = ""
         self.records = []
+        self.freshenv = True
+        self._written = False
+
+    def rebuild(self, changes):
+        """Incremental build in the same directories: ``changes`` maps relative path -> new text (None deletes the file)."""
+        for rel, content in changes.items():
+            p = os.path.join(self.src, rel)
+            if content is None:
+                self.files.pop(rel, None)
+                if os.path.exists(p):
+                    os.unlink(p)
+            else:
+                self.files[rel] = content
+                os.makedirs(os.path.dirname(p), exist_ok=True)
+                with open(p, "w", encoding="utf8", newline="") as f:
+                    f.write(content)
+        self.freshenv = False
+        del self.records[:]
+        return self.build()
+
+    def _handler(self):
+        import logging
+
+        records = self.records
+        seen = []
+
+        class H(logging.Handler):
+            def emit(self, record):
+                if any(r is record for r in seen):
+                    return
+                seen.append(record)
+                if record.levelno >= logging.WARNING:
+                    loc = getattr(record, "location", None)
+                    try:
+                        from sphinx.util.logging import get_node_location
+
+                        if isinstance(loc, nodes.Node):
+                            loc = get_node_location(loc)
+                        elif isinstance(loc, tuple):
+                            loc = ":".join(str(x) for x in loc if x is not None)
+                    except Exception:  # noqa: BLE001
+                        pass
+                    records.append({"type": getattr(record, "type", None), "subtype": getattr(record, "subtype", None), "msg": record.getMessage(), "location": loc if isinstance(loc, (str, type(None))) else str(loc)})
+
+        return H()
+
+    def resolve_all(self, docnames):
+        """Resolve the given documents against the current environment; the warnings of exactly these resolutions are left in self.records."""
+        import logging
+
+        del self.records[:]
+        h = self._handler()
+        lg = logging.getLogger("sphinx")
+        lg.addHandler(h)
+        try:
+            return {d: self.app.env.get_and_resolve_doctree(d, self.app.builder) for d in docnames}
+        finally:
+            lg.removeHandler(h)
 
     def write(self):
+        if self._written:
+            return
+        self._written = True
         os.makedirs(self.src, exist_ok=True)
         for rel, content in self.files.items():
             p = os.path.join(self.src, rel)
@@ -188,7 +249,7 @@ class SphinxBuild:
                 self.builder,
                 status=status,
                 warning=warning,
-                freshenv=True,
+                freshenv=self.freshenv,
                 parallel=self.parallel,
                 confoverrides={},
             )
